@@ -12,6 +12,7 @@ SHIPPED_SELECTIONS = [
     ("normal..tutorial1", 1), ("only normal\nonly tutorial1,tutorial2\n", 2), ("only leaves\nonly tutorial1,tutorial3.no_remote\n", 3),
     ("leaves..tutorial_gui", 4), ("normal..tutorial3.no_remote", 3), ("leaves..tutorial_get.explicit_noop", 6),
     ("only leaves\nonly tutorial2.names,tutorial1\n", 2),
+    ("only leaves..tutorial_get.explicit_noop,normal..tutorial_gui.client_noop\n", 6),
 ]
 SHIPPED_VM_STRS = {"vm1": "only CentOS\n", "vm2": "only Win10\n", "vm3": "only Ubuntu\n"}
 
